@@ -2584,6 +2584,13 @@ def transform_compressible(items, constants, labels):
             return i.name == value
         return inner
 
+    def NotAuipcJump():
+        # the jalr of an auipc pair carries the (label dependent) low half of the
+        # offset, which may still change after this decision and which c.jr / c.jalr drop
+        def inner(i, p, e):
+            return not getattr(i, 'is_auipc_jump', False)
+        return inner
+
     def RegEquals(name, value):
         def inner(i, p, e):
             reg = getattr(i, name)
@@ -2799,6 +2806,7 @@ def transform_compressible(items, constants, labels):
         ],
         'c.jr': [
             NameEquals('jalr'),
+            NotAuipcJump(),
             RegEquals('rd', 0),
             RegNotEquals('rs1', 0),
             ImmEquals(0),
@@ -2827,6 +2835,7 @@ def transform_compressible(items, constants, labels):
         ],
         'c.jalr': [
             NameEquals('jalr'),
+            NotAuipcJump(),
             RegEquals('rd', 1),
             RegNotEquals('rs1', 0),
             ImmEquals(0),
@@ -3137,14 +3146,13 @@ def resolve_immediates(items, constants, labels):
 
         # resolve the immediate field
         env = ChainMap(constants, labels)
-        imm = item.imm.eval(position, env, item.line)
 
-        # account for AUIPC "PC based on previous inst" nuance
+        # account for AUIPC "PC based on previous inst" nuance:
+        # the %lo half of an AUIPC pair is relative to the (4 byte) AUIPC before it
         if hasattr(item, 'is_auipc_jump') and item.is_auipc_jump:
-            if isinstance(item, CompressedInstruction):
-                imm += 2
-            else:
-                imm += 4
+            imm = item.imm.eval(position - 4, env, item.line)
+        else:
+            imm = item.imm.eval(position, env, item.line)
 
         d['imm'] = imm
 
